@@ -4,8 +4,8 @@
            gen/GenSimdConst.v, regenerated from simd/x86_64/*.asm on every run)
    c_*   : the C code of src/*.c (constants regenerated from the C files). *)
 From Coq Require Import List ZArith String Bool.
-From LJT Require Import lib.Words gen.GenSimdConst model.SimdColor model.SimdSample model.SimdQuant model.SimdDct model.SimdIdctFast model.SimdFdctInt model.SimdIdctInt model.SimdAvx2Shuffle model.SimdHuff model.SimdPhuff model.SimdRows
-  proofs.SimdColorProofs proofs.SimdSampleProofs proofs.SimdQuantProofs proofs.SimdConstProofs proofs.SimdDctProofs proofs.SimdIdctFastProofs proofs.SimdFdctIntProofs proofs.SimdIdctIntProofs proofs.SimdDctBoundsProofs proofs.SimdAvx2ShuffleProofs proofs.SimdHuffProofs proofs.SimdPhuffProofs proofs.SimdRowsProofs.
+From LJT Require Import lib.Words gen.GenSimdConst model.SimdColor model.SimdSample model.SimdQuant model.SimdDct model.SimdIdctFast model.SimdFdctInt model.SimdIdctInt model.SimdAvx2Shuffle model.SimdHuff model.SimdPhuff model.SimdRows model.SimdIdctRed
+  proofs.SimdColorProofs proofs.SimdSampleProofs proofs.SimdQuantProofs proofs.SimdConstProofs proofs.SimdDctProofs proofs.SimdIdctFastProofs proofs.SimdFdctIntProofs proofs.SimdIdctIntProofs proofs.SimdDctBoundsProofs proofs.SimdAvx2ShuffleProofs proofs.SimdHuffProofs proofs.SimdPhuffProofs proofs.SimdRowsProofs proofs.SimdIdctRedProofs.
 Import ListNotations.
 Local Open Scope Z_scope.
 
@@ -248,7 +248,20 @@ Theorem C05_idct_zero_ac_rows :
 Proof. exact idct_zero_ac_rows. Qed.
 Print Assumptions C05_idct_zero_ac_rows.
 
+(* reduced-size 2x2 IDCT (jidctred-sse2.asm jsimd_idct_2x2_sse2 vs jpeg_idct_2x2): equal for ALL blocks and tables
+   inside the exact lane boundary c2_ok (dequantised coefficients and odd workspace values fit a short, dword lanes fit) *)
+Theorem C05_idct_2x2_eq_partial : forall coef q, c2_ok coef q = true -> asm_idct_2x2 coef q = c_idct_2x2 coef q.
+Proof. exact idct_2x2_eq_partial. Qed.
+Print Assumptions C05_idct_2x2_eq_partial.
+
 (* non-vacuity *)
+Example C05_idct_2x2_nonvacuous :
+  let coef := [240; -31; 12; 0; 5; 0; 0; 0;  17; 9; 0; 0; 0; 0; 0; 0;  -8; 0; 3; 0; 0; 0; 0; 0] ++ repeat 0 40 in
+  let q := map (fun i => 2 + i mod 7) (map Z.of_nat (seq 0 64)) in
+  c2_ok coef q = true /\ asm_idct_2x2 coef q = c_idct_2x2 coef q /\ List.length (c_idct_2x2 coef q) = 4%nat /\
+  c2_ok (repeat 1000 64) (repeat 40 64) = false /\
+  asm_idct_2x2 (repeat 1000 64) (repeat 40 64) <> c_idct_2x2 (repeat 1000 64) (repeat 40 64).
+Proof. exact idct_2x2_nonvacuous. Qed.
 Example C05_rgb_ycc_nonvacuous :
   asm_rgb_ycc jccolor_sse2_consts 255 0 0 = (76, 85, 255) /\ c_rgb_ycc 255 0 0 = (76, 85, 255) /\
   asm_rgb_ycc jccolor_avx2_consts 12 200 77 = c_rgb_ycc 12 200 77 /\ c_rgb_ycc 12 200 77 = (130, 98, 44).
